@@ -16,7 +16,8 @@ def tree_T0(w, upc):
 def tree_T1(w, upc):
     """the suite's shape"""
     return [f('README.TXT', [w[0]], min(3, upc)), f('EMPTY.DAT'),
-            d('TEST', [w[1]], [f('TEST.DAT', [w[2], w[3]], upc + 1)])], 4
+            d('TEST', [w[1]], [f('TEST.DAT', [w[2], w[3]], upc + 1)]),
+            f('HIWORD.DAT', [w[4]], 1, hi16=1)], 5
 
 def tree_T2(w, upc, bpc, big_dir=True):
     """rich tree: label, long-name run, fragmented high->low chain, deleted slots, read-only file,
@@ -53,6 +54,8 @@ def geom(name, tree='T1', nfree=6, window_mid=False, bounds=None, info=None):
         'G32c': dict(fat32=True, clusters=70000, bpc=8, nfats=2, lba=8, slot=0, ptype=0x0C, reserved=32, extra_tail=7, fat_extra=3),
         'G32d': dict(fat32=True, clusters=65600, bpc=128, nfats=2, lba=8, slot=0, ptype=0x0C, reserved=34, fsinfo=2),
         'G16g': dict(fat32=False, clusters=4300, bpc=2, nfats=2, root_entries=100, lba=20, slot=1, ptype=6, extra_tail=1),
+        'G32h': dict(fat32=True, clusters=0x01000100, bpc=1, nfats=1, lba=8, slot=0, ptype=0x0C, reserved=32),
+        'G16h': dict(fat32=False, clusters=4200, bpc=1, nfats=2, root_entries=2048, lba=8, slot=0, ptype=6),
         'G16f': dict(fat32=False, clusters=4100, bpc=2, nfats=2, root_entries=32, lba=8, slot=0, ptype=6),
         'G32f': dict(fat32=True, clusters=65600, bpc=2, nfats=2, lba=8, slot=0, ptype=0x0C, reserved=32),
         'G32e': dict(fat32=True, clusters=70000, bpc=1, nfats=1, lba=8, slot=0, ptype=0x0C, reserved=32),
@@ -75,6 +78,14 @@ def geom(name, tree='T1', nfree=6, window_mid=False, bounds=None, info=None):
         eps = 128 if v['fat32'] else 256
         free = list(range(eps - 2, eps - 2 + nfree))
     win = sorted(set(low[:used] + free + ([rc] if rc else [])))
+    if tree == 'T1' and not v['fat32']:
+        # the data cluster that lies where "FAT entry 65536 + n" would be if the FAT went on that far: a file there is the
+        # victim of FAT accesses computed with a 32-bit cluster number on a FAT16 volume
+        fatlen = (n + 2 + 255) // 256 + v.get('fat_extra', 0)
+        vc = (256 - v['nfats'] * fatlen - (v['root_entries'] * 32 + 511) // 512) // bpc + 2
+        if 2 <= vc < n + 2 and vc not in win:
+            root = root + [f('VICTIM.DAT', [vc], min(3, upc))]
+            win = sorted(set(win + [vc]))
     v['window'] = win
     v['root'] = root
     if info:
@@ -138,7 +149,7 @@ def scripted(big=False):
         H.append(h)
 
     # S1: the regression shapes of C01 on several geometries
-    for gname in ['G16a', 'G32a', 'G16c', 'G32b', 'G16g']:
+    for gname in ['G16a', 'G32a', 'G16c', 'G32b', 'G16g', 'G32h']:
         img = image_of(gname, tree='T1', nfree=8)
         upc = img[1]
         upb = len(img[2])
@@ -171,6 +182,11 @@ def scripted(big=False):
             O('read', f='f3', n=2, api='raii'), O('read', f='f3', n=upc, api='eio'), O('seek_start', f='f3', u=1, api='eio'),
             O('write', f='f3', n=1),                      # read-only handle rejects writes
             O('close_file', f='f3', api='raii'),
+            # an entry with something in bytes 20..22 (not part of a FAT16 cluster number): extended, truncated, deleted
+            O('open_file', d='d0', name='VICTIM.DAT', mode='Append', as_='fv'), O('write', f='fv', n=1), O('close_file', f='fv'),
+            O('open_file', d='d0', name='HIWORD.DAT', mode='Append', as_='fh'), O('write', f='fh', n=upc + 1), O('close_file', f='fh'),
+            O('open_file', d='d0', name='HIWORD.DAT', mode='Truncate', as_='fh2'), O('write', f='fh2', n=1), O('close_file', f='fh2'),
+            O('delete', d='d0', name='HIWORD.DAT'),
         ] + epilogue()
         add('S1-' + gname, img, ops, upc)
 
@@ -297,6 +313,11 @@ def scripted(big=False):
                 if target == 'MISSING.X':
                     ops += [O('delete', d=dirv, name=target)]
                 k += 1
+        # the same name in two directories: one open, the other deleted / a missing one deleted
+        ops += [O('open_file', d='d1', name='SAME.TXT', mode='Create', as_='s1'), O('write', f='s1', n=1),
+                O('open_file', d='d0', name='SAME.TXT', mode='Create', as_='s0'), O('close_file', f='s0'),
+                O('delete', d='d0', name='SAME.TXT'), O('delete', d='d0', name='SAME.TXT'), O('delete', d='d0', name='RO.TXT'), O('delete', d='d1', name='SAME.TXT'),
+                O('close_file', f='s1'), O('delete', d='d1', name='SAME.TXT')]
         ops += [O('delete', d='d0', name='VERIFVOL'), O('mkdir', d='d0', name='VERIFVOL'), O('open_dir', d='d0', name='VERIFVOL', as_='dlab'), O('find', d='d0', name='VERIFVOL'), O('iterate', d='d0')]
         ops += [O('open_file', d='d0', name='A.TXT', mode='ReadOnly', as_='held')]
         for m in modes:
@@ -482,6 +503,56 @@ def scripted(big=False):
                                 O('iterate', d='d1'), O('close_dir', d='d1')] + epilogue()
             add('S19-' + gname, (dict(vols=[v]), upc, bounds), ops, upc)
 
+    # S20: a file of more than 255 clusters on a volume with some 300 free clusters (chains, counters and free counts
+    # beyond 8 bits; FAT entries across two FAT sectors), written, read, truncated, deleted
+    if big:
+        for gname in (['G16a', 'G32a'] if big == 'full' else ['G16a']):
+            img = image_of(gname, tree='T0', nfree=300, bounds=[0])
+            ops = prologue() + [O('open_file', d='d0', name='LONG.BIN', mode='Create', as_='f0'), O('write', f='f0', n=130), O('write', f='f0', n=131),
+                                O('seek_start', f='f0', u=255), O('read', f='f0', n=3), O('seek_start', f='f0', u=0), O('read', f='f0', n=261), O('close_file', f='f0')]
+            if big == 'full':
+                ops += [O('open_file', d='d0', name='OTHER.BIN', mode='Create', as_='f1'), O('write', f='f1', n=2), O('close_file', f='f1'),
+                        O('open_file', d='d0', name='LONG.BIN', mode='Append', as_='f2'), O('write', f='f2', n=3), O('seek_start', f='f2', u=258), O('read', f='f2', n=6),
+                        O('close_file', f='f2')]
+            if big == 'full':
+                ops += [O('open_file', d='d0', name='LONG.BIN', mode='Truncate', as_='f3'), O('write', f='f3', n=2), O('close_file', f='f3'), O('delete', d='d0', name='LONG.BIN'),
+                        O('open_file', d='d0', name='AGAIN.BIN', mode='Create', as_='f4'), O('write', f='f4', n=290), O('close_file', f='f4')]
+            else:
+                ops += [O('delete', d='d0', name='LONG.BIN')]
+            ops += epilogue()
+            add('S20-' + gname, img, ops, img[1])
+
+    # S21: 128 blocks per cluster: a new directory (128 block writes before it may be linked), entries in it, a file across two clusters
+    for gname in ['G16d', 'G32d']:
+        img = image_of(gname, tree='T0', nfree=4, bounds=[0])
+        upc = img[1]
+        ops = prologue() + [O('mkdir', d='d0', name='BIG'), O('open_dir', d='d0', name='BIG', as_='d1'),
+                            O('open_file', d='d1', name='A.BIN', mode='Create', as_='f0'), O('write', f='f0', n=upc + 3), O('seek_start', f='f0', u=upc - 1), O('read', f='f0', n=4),
+                            O('close_file', f='f0'), O('mkdir', d='d1', name='SUB'), O('iterate', d='d1'), O('lookup_all', d='d1'),
+                            O('open_file', d='d1', name='A.BIN', mode='Truncate', as_='f1'), O('write', f='f1', n=1), O('close_file', f='f1'),
+                            O('delete', d='d1', name='A.BIN'), O('close_dir', d='d1')] + epilogue()
+        add('S21-' + gname, img, ops, upc)
+
+    # S22: volumes closed in another order than they were opened, while a file on the volume opened last stays in use
+    img = image_multi()
+    upc = img[1]
+    ops = [O('open_volume', idx=0, as_='v0'), O('open_volume', idx=1, as_='v1'), O('open_volume', idx=2, as_='v2'),
+           O('open_root', v='v2', as_='c'), O('open_file', d='c', name='LAST.BIN', mode='Create', as_='fc'), O('write', f='fc', n=upc + 1),
+           O('open_root', v='v1', as_='b'), O('open_file', d='b', name='MID.BIN', mode='Create', as_='fb'), O('write', f='fb', n=2),
+           O('close_volume', v='v0'), O('write', f='fc', n=1), O('seek_start', f='fc', u=0), O('read', f='fc', n=upc + 2), O('write', f='fb', n=1),
+           O('open_volume', idx=0, as_='v0b'), O('open_root', v='v0b', as_='a'), O('open_file', d='a', name='README.TXT', mode='ReadOnly', as_='fa'), O('read', f='fa', n=2),
+           O('seek_start', f='fc', u=1), O('read', f='fc', n=upc), O('write', f='fc', n=2), O('close_file', f='fb'), O('close_dir', d='b'), O('close_volume', v='v1'),
+           O('read', f='fa', n=1), O('write', f='fc', n=1), O('seek_start', f='fc', u=0), O('read', f='fc', n=2 * upc), O('close_file', f='fc'), O('close_file', f='fa'),
+           O('close_dir', d='c'), O('close_dir', d='a'), O('close_volume', v='v2'), O('close_volume', v='v0b'), O('remount')]
+    add('S22-multi', img, ops, upc, lim=(8, 8, 4))
+
+    # S23: a FAT16 root directory of 2048 entries (64 KiB: the byte count no longer fits 16 bits)
+    img = image_of('G16h', tree='T1', nfree=3, bounds=[0])
+    ops = prologue() + [O('iterate', d='d0'), O('find', d='d0', name='README.TXT'), O('open_file', d='d0', name='NEW.TXT', mode='Create', as_='f0'), O('write', f='f0', n=1),
+                        O('close_file', f='f0'), O('open_dir', d='d0', name='TEST', as_='d1'), O('iterate', d='d1'), O('close_dir', d='d1'), O('delete', d='d0', name='EMPTY.DAT'),
+                        O('close_dir', d='d0'), O('close_volume', v='v0')]
+    add('S23-G16h', img, ops, img[1])
+
     # S7: several volumes at once
     img = image_multi()
     upc = img[1]
@@ -502,7 +573,10 @@ def scripted(big=False):
                       ('hintpast', dict(info_next=70000)), ('hintlast', dict(info_next=65526)),
                       # the free clusters lie BELOW the stored hint (the search must wrap), with every kind of stored count
                       ('stale0-mid', dict(info_free=0, info_next=65000)), ('correct-mid', dict(info_next=65000)), ('unknown-mid', dict(info_free='unknown', info_next=65526)),
-                      ('stale1-mid', dict(info_free=1, info_next=60000))]:
+                      ('stale1-mid', dict(info_free=1, info_next=60000)),
+                      # count and hint known / unknown independently; the reserved hint values 0 and 1
+                      ('count-nohint', dict(info_free='correct')), ('stalecount-nohint', dict(info_free=3)), ('nocount-hint', dict(info_free='unknown', info_next='first')),
+                      ('count-hint0', dict(info_free='correct', info_next=0)), ('count-hint1', dict(info_free='correct', info_next=1))]:
         img = image_of('G32a', tree='T1', nfree=6, info=info, window_mid=tag.endswith('-mid'))
         upc = img[1]
         ops = prologue() + [O('open_file', d='d0', name='I.BIN', mode='Create', as_='f0'), O('write', f='f0', n=3 * upc), O('flush', f='f0'),
@@ -853,7 +927,7 @@ def fault_histories(seed, quick):
         upc = img[1]
         ops = prologue() + [O('open_dir', d='d0', name='SUB', as_='d1'), O('iterate', d='d1'), O('iterate', d='d1'),
                             O('find', d='d1', name='F11.Z'), O('find', d='d1', name='F11.Z'), O('find', d='d1', name='NOPE'), O('find', d='d1', name='NOPE'),
-                            O('iterate_lfn', d='d0'), O('iterate_lfn', d='d0'),
+                            O('iterate_lfn', d='d0'), O('iterate_lfn', d='d0'), O('label', v='v0'), O('label', v='v0'),
                             O('open_file', d='d0', name='LONGFI~1.TXT', mode='ReadOnly', as_='f0'), O('read', f='f0', n=2 * upc), O('seek_start', f='f0', u=0), O('read', f='f0', n=2 * upc)]
         add('FR-' + gname, img, ops)
         # create in a multi-cluster directory, write, flush, overwrite, append, truncate, delete, mkdir
@@ -877,4 +951,10 @@ def fault_histories(seed, quick):
                             O('open_file', d='d0', name='B.BIN', mode='Create', as_='f1'), O('write', f='f1', n=upc), O('write', f='f1', n=1), O('close_file', f='f1'),
                             O('delete', d='d0', name='A.BIN'), O('mkdir', d='d0', name='LASTD')]
         add('FL-' + gname, img, ops)
+    # 128 blocks per cluster: faults inside the zeroing loop of a new directory cluster
+    for gname in (['G16d'] if quick else ['G16d', 'G32d']):
+        img = image_of(gname, tree='T0', nfree=3, bounds=[0])
+        ops = prologue() + [O('mkdir', d='d0', name='BIG'), O('open_dir', d='d0', name='BIG', as_='d1'), O('open_file', d='d1', name='A.BIN', mode='Create', as_='f0'),
+                            O('write', f='f0', n=3), O('close_file', f='f0')]
+        add('FD-' + gname, img, ops)
     return H
